@@ -198,7 +198,7 @@ func calleeOf(in ssa.Instruction) *ssa.Function {
 
 func calleeName(in ssa.Instruction) string {
 	if f := calleeOf(in); f != nil {
-		return f.Name()
+		return fnName(f)
 	}
 	return ""
 }
@@ -796,9 +796,12 @@ func (rc *resolvedCall) Result() ssa.Value {
 		if ret.Results[0] == ssa.Value(rc.Call) {
 			return
 		}
+		if isNilConst(ret.Results[0]) && !reachableFrom(rc.Call, ret) {
+			return // left before the inner call was made: nothing to hand on
+		}
 		if u, isU := ret.Results[0].(*ssa.UnOp); isU {
 			if a, isA := u.X.(*ssa.Alloc); isA {
-				if s := lastStoreBefore(a, u); s != nil && s.Val == ssa.Value(rc.Call) {
+				if s := lastStoreBefore(a, u); s != nil && (s.Val == ssa.Value(rc.Call) || (isNilConst(s.Val) && !reachableFrom(rc.Call, s))) {
 					return
 				}
 			}
